@@ -3,7 +3,7 @@
 //! Commands (all numbers hex, one result line per command, "-" leaves an optional argument at its default):
 //!   model <ver> <seed> <namelen> <nseq> <nbones> <nverts> <ntex> <nmat> <nlookups> <natt> <nevents> <nlights> <ncams>
 //!         [npart nribbon ntexanim ncoloranim ntransanim nglobalseq nviews nbounding mode flags]
-//!         mode  = max keys per track (low byte, default 2) | 0x100 key-less tracks carry the default track header | 0x800 bone tracks share value arrays | 0x1000 bone tracks share timestamp arrays
+//!         mode  = max keys per track (low byte, default 2) | 0x100 key-less tracks carry the default track header | 0x800 bone tracks share value arrays | 0x1000 bone tracks share timestamp arrays | 0x2000 camera tracks carry no keys
 //!                 | 0x200 no texture has a file name | 0x400 every texture has a file name
 //!         flags = header flags (default: random bits without 0x8 / 0x8000000, which add optional header arrays)
 //!     -> W1=<hex | LEN=<n> SHA=<fnv1a64>> EQ=<1|0|PARSE-..> DIFF=<sections|-> SAME=<1|0|WRITE2-..> LISTS=<section:len,..>
@@ -66,7 +66,7 @@ struct G {
     /// 0 = file names on hard-coded textures and some others, 1 = no texture has a file name, 2 = every texture has one
     texnames: u8,
     /// bone tracks with key frames of the same size share one value array (same bytes, same original offset)
-    share: bool, share_ts: bool,
+    share: bool, share_ts: bool, static_cams: bool,
 }
 
 impl G {
@@ -75,7 +75,7 @@ impl G {
         if s == 0 {
             s = 0x1234_5678_9ABC_DEF1;
         }
-        let mut g = G { s, off: 0x1000_0000, maxkeys: maxkeys & 0xff, plain: maxkeys & 0x100 != 0, texnames: if maxkeys & 0x200 != 0 { 1 } else if maxkeys & 0x400 != 0 { 2 } else { 0 }, share: maxkeys & 0x800 != 0, share_ts: maxkeys & 0x1000 != 0 };
+        let mut g = G { s, off: 0x1000_0000, maxkeys: maxkeys & 0xff, plain: maxkeys & 0x100 != 0, texnames: if maxkeys & 0x200 != 0 { 1 } else if maxkeys & 0x400 != 0 { 2 } else { 0 }, share: maxkeys & 0x800 != 0, share_ts: maxkeys & 0x1000 != 0, static_cams: maxkeys & 0x2000 != 0 };
         for _ in 0..4 {
             g.next();
         }
@@ -493,7 +493,9 @@ fn build(v: M2Version, z: &Sz) -> M2Model {
         });
     }
 
-    // cameras
+    // cameras (mode 0x2000: every camera track without keys, whatever the other sections carry)
+    let saved_keys = g.maxkeys;
+    if g.static_cams { g.maxkeys = 0; }
     for i in 0..z.ncam {
         let d = &mut m.raw_data.camera_animation_data;
         let camera_type = g.below(3) as u32;
@@ -509,6 +511,8 @@ fn build(v: M2Version, z: &Sz) -> M2Model {
             target_position_base, roll_animation, id, flags,
         });
     }
+
+    g.maxkeys = saved_keys;
 
     // particle emitters
     for i in 0..z.npart {
@@ -727,7 +731,7 @@ fn norm(m: &M2Model, common: Option<(u32, u32)>) -> M2Model {
         let (lo, hi) = (a.min(b), a.max(b));
         let mlo = M2Version::from_header_version(lo).unwrap_or(M2Version::Vanilla);
         n.header.version = 0;
-        n.header.num_skin_profiles = None;
+        if lo <= 263 { n.header.num_skin_profiles = None; }      // a field of both layouts from WotLK on
         n.header.playable_animation_lookup = None;
         n.header.texture_flipbooks = None;
         n.header.blend_map_overrides = None;
